@@ -280,7 +280,7 @@ func init() {
 		Assumptions: []string{"the race detector only sees accesses the workload executes in the same run; reports vary from run to run, hence the repetition"},
 		NumCases: func(tier string) int {
 			if tier == "thorough" {
-				return 1500
+				return 3000
 			}
 			return 64
 		},
